@@ -567,7 +567,10 @@ func (env *Env) index(x *EIndex) (*Term, types.Type) {
 		if v, ok := pendingNums[i]; ok {
 			i = numAs(v, mapKeySort(u.Key()))
 		}
-		return Select(Select(env.fc.get(st, vk, vs), t), i), u.Elem()
+		// Go semantics: an absent key (or a nil map) reads as the zero value
+		hk, hs, _, _ := mapClasses(u)
+		present := And(Not(Eq(t, IntLit64(0))), Select(Select(env.fc.get(st, hk, hs), t), i))
+		return Ite(present, Select(Select(env.fc.get(st, vk, vs), t), i), ZeroOf(u.Elem())), u.Elem()
 	case *types.Basic:
 		if u.Kind() == types.String {
 			return Select(StrData(t), toIdx()), types.Typ[types.Byte]
@@ -849,6 +852,21 @@ func (env *Env) callExpr(x *ECall) (*Term, types.Type) {
 		b, bty := arg(2)
 		a, b, ty := env.coerce(a, aty, b, bty)
 		return Ite(c, a, b), ty
+	case "as":
+		// as(e, "T"): view an untyped term (e.g. the result of a spec function) at Go type T
+		t, _ := arg(0)
+		ts, ok := x.Args[1].(*EStr)
+		if !ok {
+			efail("as() needs a type name string")
+		}
+		ty := env.fc.eng.lookupTypeByName(ts.S)
+		if ty == nil {
+			efail("as(): unknown type %s", ts.S)
+		}
+		if SortOf(ty) != t.sort {
+			efail("as(): sort %s does not fit type %s", t.sort, ts.S)
+		}
+		return t, ty
 	case "addr":
 		// addr(p.f): identity of the field's address (for mutexes)
 		sel, ok := x.Args[0].(*ESel)
@@ -856,6 +874,9 @@ func (env *Env) callExpr(x *ECall) (*Term, types.Type) {
 			efail("addr() needs a field selection")
 		}
 		bt, bty := env.eval(sel.X)
+		if bty == nil {
+			efail("addr(): base %s has no Go type (use as(e, \"T\"))", exprString(sel.X))
+		}
 		pt, ok := bty.Underlying().(*types.Pointer)
 		if !ok {
 			efail("addr(): base is not a pointer")
